@@ -1,6 +1,6 @@
 CONSTANTS
-  Family = "tmo"
-  Defects = {"HeaderOverProtocol"}
+  Family = "path"
+  Defects = {"RewriteCaseSensitive"}
   Big = FALSE
 SPECIFICATION Spec
 INVARIANTS HdrImplIsSem HdrLevelOrder PathImplIsSem PrefixWins PathRuleSwapsWholePath HostImplIsSem RedirImplIsSem TmoImplIsSem TryBelowGlobal
